@@ -283,6 +283,18 @@ class DomainAdapter(Adapter):
                 if not np.array_equal(zz, keep) or zz.dtype != keep.dtype:
                     bad('TransformLeavesInputUnmodified', dtype=dt)
         if 'matrixarray' in self.which and not out:
+            # a transform that FAILS (an array that does not fit the grid) leaves the array as it was - data and space flag: the
+            # flag says in which space the data is, also on the error path
+            for start, call in ((Space.Real, d.MatrixArray_to_fourier), (Space.Fourier, d.MatrixArray_to_real)):
+                wrong = self.rng.standard_normal((n + 1, 2, 2))
+                wrong = wrong + np.transpose(wrong, (0, 2, 1))
+                mw = MatrixArray(length=n + 1, rank=2, data=wrong.copy(), space=start)
+                try:
+                    call(mw)
+                    bad('SpaceGuard', what='an array of another length than the grid was transformed without an error', length=n + 1)
+                except Exception:      # noqa - the class is not specified
+                    if mw.space != start or not np.array_equal(np.asarray(mw.data), wrong):
+                        bad('SpaceGuard', what='a transform that raised left the array changed (data or space flag)', flag=str(mw.space), started=str(start))
             # memory layouts a user's array may have: C order, Fortran order, the per-matrix transpose view, a
             # pair-major (rank, rank, n) table transposed, every second row of a longer array
             layouts = [('C', lambda a: a.copy()), ('F', np.asfortranarray), ('swapaxes', lambda a: a.copy().swapaxes(1, 2)),
